@@ -478,6 +478,9 @@ func runC07(c *an.Ctx) {
 					}
 				}
 			}
+			if os.Getenv("HDRCHECK_PROVSURVEY") != "" {
+				checkResultProvenance(c, "C07.x", p.RepoFuncs()...)
+			}
 			if os.Getenv("HDRCHECK_ERRSURVEY") != "" {
 				checkErrorDiscipline(c, "C07.y", nil, p.RepoFuncs()...)
 			}
@@ -486,10 +489,7 @@ func runC07(c *an.Ctx) {
 			}
 			// the pending ranges and the sync state are mutex-protected: an unbalanced
 			// acquisition blocks the next sync attempt (or State()) for good
-			nl := checkLockBalance(c, "C07.e", funcsNamed(p, "sync.(*ranges).", "sync.(*headerRange).")...)
-			c.Min("C07.e", "mutex operations of the pending ranges", nl, 14)
-			nl = checkLockBalance(c, "C07.d", doSync, p.Method("sync", "Syncer", "State"))
-			c.Min("C07.d", "mutex operations on the sync state", nl, 6)
+			// (lock balance of ranges.lk, headerRange.lk and stateLk: rules/locks.go lockTable)
 		}
 		n := checkArith(c, "C07.e", []*ssa.Function{rangeAmount, p.Method("sync", "headerRange", "Get"), p.Method("sync", "headerRange", "Remove")}, map[string]bool{"usub": true, "index": true, "slice": true}, nil, []arithException{
 			{Func: "sync.(*headerRange).Get", Match: "[:", Reason: "rangeAmount(end) ≤ len(headers): it returns len, or end−start+1 when start+len ≥ end; start+len == end (which would give len+1) needs a range ending exactly at end−1 while `end` is the height of a header of a later pending range, impossible because ranges are never adjacent (checked: C07.e ranges-non-adjacent)"},
